@@ -306,7 +306,11 @@ def native(art, tier, stats, fnd):
 
 def run(tier):
     t0 = time.time(); stats = common.SolverStats(); fnd = common.Findings("C20")
-    kd = kdriver(stats)
+    try: kd = kdriver(stats)
+    except Exception as e:
+        # the driver no longer has a shape the kernel can execute (an std call without a contract stub): no verdict from the kernel, the native part still runs
+        fnd.undecided("K-driver could not be executed on this tree (%s: %s)" % (type(e).__name__, str(e)[:200]))
+        kd = {"paths": 0, "steps": 0, "queries": 0, "checks": [], "art": common.artifacts(need_mir=("sylt", "sylt-common", "sylt-tokenizer"), need_replay=True)}
     for c in kd["checks"]:
         if c["verdict"] == "unreached": fnd.undecided("K-driver: %s is not reached by any explored path (the obligations would be vacuous)" % c["obligation"]); continue
         if c["verdict"] != "holds": fnd.report("driver:" + re.sub(r"[^a-zA-Z ]", "", c["obligation"])[:50].strip().replace(" ", "_"), "%s: %s; events %s %s" % (c["obligation"], c["verdict"], c["events"], c.get("model", "")), {"obligation.txt": str(c)})
